@@ -672,5 +672,7 @@ def check(ctx):
     ctx.cfg = "lib@default"
     lib = ctx.load(facts.Config("lib"))
     C14.F_replay(ctx, lib)
+    # the rebuild from the stored node list must not re-apply the (non-idempotent) repair step: the answers computed on the rebuilt ADF are the stored answers
+    C14.P_fix_once(ctx, {"lib": lib, "server": ctx.load(facts.Config("server"))}, lib)
     # 'the models stored and returned are exactly the definitional answers': the library-level suites of every strategy the service offers
     deps.library_semantics(ctx, [facts.Config("lib")])
